@@ -70,6 +70,7 @@ pub fn span(kind: usize, v: &Vals, uid: u64) -> tracing::Span {
         0 => tracing::span!(target: "plain", Level::INFO, "plain_span", uid = uid, a = v.s.as_str(), n = v.i, later = Empty, later2 = Empty),
         1 => tracing::span!(target: HOSTILE_TARGET, Level::INFO, HOSTILE_SPAN, uid = uid, a = v.s2.as_str(), later = Empty, later2 = Empty),
         2 => tracing::span!(target: "plain", Level::INFO, "odd_fields", uid = uid, "f\"q" = v.s.as_str(), "late r" = Empty, later = Empty, later2 = Empty),
+        4 => tracing::span!(target: "plain", Level::INFO, "log_named", uid = uid, login = ?DebugW(&v.s), logger = %DisplayW(&v.s2), logged_in = v.b, later = Empty, later2 = Empty),
         _ => tracing::span!(target: "plain", Level::INFO, "bad_span", uid = uid, bad = ?PanicOnDebug, later = Empty, later2 = Empty),
     }
 }
